@@ -208,6 +208,46 @@ fn eval(name: &str, a: &[Value]) -> Value {
             }
         }
         "execute_all" => crate::exec::execute_all(&a[0]),
+        // [output bytes, "ascii"|"unicode", "markdown"|"cram"]: create a test from (command `cmd`, this output), parse the
+        // generated document back and validate it against the same output
+        "generate_and_validate" => {
+            use scrut::generators::generator::TestCaseGenerator;
+            use scrut::parsers::parser::Parser;
+            let stdout = bytes_arg(&a[0]);
+            let esc = escaper(&a[1]);
+            let cram = a[2].as_str() == Some("cram");
+            let output = scrut::output::Output { stdout: stdout.clone().into(), stderr: vec![].into(), exit_code: scrut::output::ExitStatus::Code(0) };
+            let config = if cram { scrut::config::TestCaseConfig::default_cram() } else { scrut::config::TestCaseConfig::default_markdown() };
+            let testcase = scrut::testcase::TestCase { title: "".into(), shell_expression: "cmd".into(), expectations: vec![], exit_code: None,
+                line_number: 1, config };
+            let result = testcase.validate(&output);
+            let outcome = scrut::outcome::Outcome { location: None, output: output.clone(), testcase,
+                format: if cram { scrut::parsers::parser::ParserType::Cram } else { scrut::parsers::parser::ParserType::Markdown },
+                escaping: esc, result };
+            let generated = if cram {
+                scrut::generators::cram::CramTestCaseGenerator::default().generate_testcases(&[&outcome])
+            } else {
+                scrut::generators::markdown::MarkdownTestCaseGenerator::default().generate_testcases(&[&outcome])
+            };
+            let text = match generated { Ok(t) => t, Err(e) => return json!({"passes": false, "why": format!("generate: {:#}", e)}) };
+            let maker = std::sync::Arc::new(scrut::expectation::ExpectationMaker::new(scrut::rules::registry::RuleRegistry::default()));
+            let parsed = if cram {
+                scrut::parsers::cram::CramParser::new(maker, 2).parse(&text)
+            } else {
+                scrut::parsers::markdown::MarkdownParser::new(maker, &["scrut"], None).parse(&text)
+            };
+            let tests = match parsed { Ok((_c, t)) => t, Err(e) => return json!({"passes": false, "why": format!("parse: {:#}", e), "document": text}) };
+            if tests.len() != 1 {
+                return json!({"passes": false, "why": format!("{} test cases", tests.len()), "document": text});
+            }
+            if tests[0].shell_expression != "cmd" {
+                return json!({"passes": false, "why": format!("shell expression {:?}", tests[0].shell_expression), "document": text});
+            }
+            match tests[0].validate(&output) {
+                Ok(()) => json!({"passes": true, "document": text}),
+                Err(e) => json!({"passes": false, "why": format!("validate: {:?}", std::mem::discriminant(&e)), "document": text}),
+            }
+        }
         "parse_expectation" => {
             let maker = scrut::expectation::ExpectationMaker::new(scrut::rules::registry::RuleRegistry::default());
             match maker.parse(&str_arg(&a[0])) {
